@@ -89,6 +89,7 @@ func (s *zzSuite20) NewRecordProtection(secret []byte) (dtlsciphersuite.RecordPr
 var _ dtlsciphersuite.CipherSuiteTLS13 = (*zzSuite20)(nil)
 
 type zzConn20 struct {
+	failWrites  int // the next failWrites WritePackets calls fail (transient send error) and write nothing
 	alerts      []alert.Description
 	levels      []alert.Level
 	written     [][]*dtlsflight.Packet
@@ -120,6 +121,11 @@ func (c *zzConn20) Notify(_ context.Context, level alert.Level, desc alert.Descr
 }
 
 func (c *zzConn20) WritePackets(_ context.Context, pkts []*dtlsflight.Packet) (*WriteResult, error) {
+	if c.failWrites > 0 {
+		c.failWrites--
+
+		return nil, errZZCommit20
+	}
 	c.written = append(c.written, pkts)
 	for _, p := range pkts {
 		c.writeEpochs = append(c.writeEpochs, p.Record.Header.Epoch)
@@ -485,6 +491,49 @@ func zzPeerKeyUpdateDoesNotAckOurs() {
 	zzsymAssert(st.LocalEpoch() == cur.Epoch, "peer_keyupdate_leaves_sending_epoch")
 	zzsymAssert(len(p.flights) == 1, "own_flight_still_active_after_peer_keyupdate")
 	zzsymCover("peer_update_while_ours_in_flight")
+}
+
+// A KeyUpdate whose FIRST transmission fails at the socket (transient send error): nothing of it reached the peer.
+// Either the post-handshake machine stops with that error (what the library does: later UpdateKeys calls then fail
+// too, nothing is promised) or, if it keeps running, it has lost nothing - in particular the handshake message
+// sequence number it had assigned to the unsent KeyUpdate is available again. Otherwise the next KeyUpdate would
+// go out with a message_seq the peer is not waiting for: the peer would ACK the record on receipt but never process
+// the message, UpdateKeys would return success on that ACK, and the endpoint would move to a sending epoch the peer
+// never installs. Proved for request_update 0/1 and an arbitrary current generation / message sequence number.
+//
+//symgo:entry covers=send_failure_stops_machine
+func zzKeyUpdateFirstSendFails() {
+	hashLen := 32
+	p, st, conn := zzPost20(hashLen)
+	cur := zzGenH20("cur", hashLen)
+	st.TrafficKeys.Install(cur, nil)
+	st.SetLocalEpoch(cur.Epoch)
+	zzsymAssume(cur.Epoch != 0xffff)
+	sendSeq := int(zzsymU16("send_seq"))
+	zzsymAssume(sendSeq < 0xffff)
+	st.HandshakeSendSequence = sendSeq
+	request := handshake.KeyUpdateNotRequested
+	if zzsymChoice("request", 2) == 1 {
+		request = handshake.KeyUpdateRequested
+	}
+	completion := zzCompletion20()
+	zzSignals20 = 0
+	conn.failWrites = 1
+	err := p.startKeyUpdate(context.Background(), conn, postHandshakeCommand{
+		Kind: commandSendKeyUpdate, KeyUpdate: keyUpdateCommand{Request: request}, Completion: completion,
+	})
+	zzsymAssert(len(conn.commits) == 0 && st.LocalEpoch() == cur.Epoch, "failed_send_commits_nothing")
+	if err != nil {
+		zzsymCover("send_failure_stops_machine")
+
+		return
+	}
+	// the machine keeps running: the caller must have been told, and no message sequence number may be lost
+	out := completion.outcome.Load()
+	zzsymAssert(out != nil && out.err != nil, "failed_send_reported_to_update_keys")
+	zzsymAssert(st.HandshakeSendSequence == sendSeq, "failed_send_gives_back_its_message_sequence_number")
+	zzsymAssert(len(p.flights) == 0, "failed_send_leaves_no_flight")
+	zzsymCover("send_failure_rolled_back")
 }
 
 // UpdateKeys' reliable flight, from startKeyUpdate to completion: arbitrary current write generation (epoch e =
